@@ -129,6 +129,19 @@ add("C15", "E1",
     "'DIV' port entries are a listed known finding.",
     "DESIGN.md §4 C15")
 
+add("C08", "E1",
+    "exhaustive enumeration of instruction x addressing shape x role on synthetic models vs. composition reference",
+    "Synthetic models of both ISAs (register forms with 1-2 micro-ops, load/store tables per "
+    "addressing shape and register type, defaults, with/without multipliers, per-type load latency) "
+    "x instructions with the memory operand in every position and role (load, store, read-modify-"
+    "write through ISA entries), with/without mnemonic suffix (incl. stems ending in a suffix letter), "
+    "unknown mnemonic, own memory entry; all kernels of length 1-2 (thorough 3) so every instruction "
+    "follows every other; micro-ops, pressure, latency, latency without load, throughput and the "
+    "unknown flag are compared with mc/ref/compose.py and the model tables are compared before/after.",
+    "Trusted: mc/ref/compose.py. 'Rows for the shape but none for the register type' is unspecified "
+    "(counted). Shipped-model vocabulary part not built yet.",
+    "DESIGN.md §4 C08")
+
 NOT_YET = {}
 
 def main():
